@@ -692,7 +692,7 @@ def run(ctx):
         ctx.notes["validate_child_grid_points_cross_checked"] = T["grid_checked"]
         ok, rep = ctx.prove()
         ctx.log("proof ok=%s discharged=%d/%d" % (ok, ctx.cov["discharged"], ctx.cov["obligations"]))
-    header = "From PV Require Import C14.Model C14.Gen."
+    header = "From Coq Require Import ZArith.\nFrom PV Require Import C14.Model C14.Gen."
     if T and ok:
         shown = ctx.coq_eval_show(header, ["params_eqb P_src P_found", "P_okb P_src"])
         ctx.notes["source_is_as_found"] = shown[0].split(":")[0].strip().lstrip("= ").strip()
